@@ -138,17 +138,25 @@ def explore(ctx, scale=1.0):
         # ---------------- mappyfile validate ----------------
         creqs, ckeep = [], []
         runs = int((60 if ctx.thorough else 10) * scale)
-        for i in range(runs):
+        # the boundary of the status arithmetic, on every run: message counts and unparseable files whose sum (or capped sum)
+        # lands on / next to a multiple of 256, in both file orders
+        U, OK = ("unparseable", 0), ("valid", 0)
+        plans = [[("invalid", 255), U, OK], [U, ("invalid", 254), U], [("invalid", 256)], [("invalid", 300), U], [("invalid", 253), U, U, U],
+                 [("invalid", 128), ("invalid", 128)], [("invalid", 255), OK]]
+        if ctx.thorough:
+            plans += [[U] * 256, [U] * 255 + [("invalid", 1)], [("invalid", 512)], [("invalid", 200), ("invalid", 56), OK]]
+        for i in range(len(plans) + runs):
             d_run = os.path.join(tmp, f"v{i}")
             os.makedirs(d_run)
             files, outcomes = [], []
-            for j in range(rng.randint(1, 4)):
-                kind = rng.choice(["valid", "invalid", "invalid", "unparseable"])
+            plan = plans[i] if i < len(plans) else [(rng.choice(["valid", "invalid", "invalid", "unparseable"]), None) for _ in range(rng.randint(1, 4))]
+            for j, (kind, k) in enumerate(plan):
                 fn = os.path.join(d_run, f"m{j}.map")
                 if kind == "valid":
                     txt = 'MAP\n  NAME "ok"\nEND\n'
                 elif kind == "invalid":
-                    k = rng.choice([1, 2, 3, 7, 255, 256, 257, 300]) if rng.random() < .5 else rng.randint(1, 40)
+                    if k is None:
+                        k = rng.choice([1, 2, 3, 7, 255, 256, 257, 300]) if rng.random() < .5 else rng.randint(1, 40)
                     txt = invalid_map(k)
                 else:
                     txt = rng.choice(['MAP\n  NAME "broken\nEND', "MAP NAME END END", "LAYER ; END", 'MAP "x" END'])
